@@ -4,6 +4,7 @@
 (*   res:{ok, panic, regs:[13 x 8 bytes], clen, chead:[<=8], ctail:[<=8],           *)
 (*        pages:[{n, cnt, acc, vlen, nnz, nz:[[off,b]..], zs:[off..], smp:[b..],    *)
 (*                fnz:[off,b], lnz:[off,b]}..]},                                    *)
+(*        bsame, asame, re, reok, d1, d2, repanic (ownership: see OwnershipReasons)},*)
 (*   dec:{ok, panic, ol, wl, z, s, cl}}                                             *)
 (* `pages` is the driver's projection of Memory.Pages in ascending page order: runs *)
 (* of all-zero pages with the same access may be merged (cnt > 1); for a page with  *)
@@ -64,6 +65,17 @@ CodeOk(res, cv) ==
   /\ res.chead = [i \in 1..Min2(8, cv.len) |-> VByte(cv, i - 1)]
   /\ res.ctail = [i \in 1..Min2(8, cv.len) |-> VByte(cv, cv.len - Min2(8, cv.len) + i - 1)]
 
+\* Y is a FUNCTION of (p, a) and the machine owns the memory it returns: after the guest has stored into every
+\* writable page (res.re: the driver did that through Memory.Write) the caller's blob and argument buffers are
+\* unchanged, and initialising again from the same buffers gives the same memory (digest over page number,
+\* access and all 4096 bytes of every page; the first memory is the one judged page by page above) and registers.
+OwnershipReasons(res) ==
+  IF ~res.re THEN {}
+  ELSE IF res.repanic # "" THEN {"go_panic_reinit"}
+  ELSE (IF ~res.bsame THEN {"guest_store_changed_program_blob"} ELSE {})
+       \cup (IF ~res.asame THEN {"guest_store_changed_argument"} ELSE {})
+       \cup (IF ~res.reok \/ res.d2 # res.d1 THEN {"second_initialisation_differs"} ELSE {})
+
 Reasons(e) ==
   LET p == StdParse(e.blob)
       al == BLen(e.arg)
@@ -82,6 +94,7 @@ Reasons(e) ==
                    IN (IF e.res.regs # InitRegs(al) THEN {"registers"} ELSE {})
                       \cup (IF ~CodeOk(e.res, CView(e.blob, p)) THEN {"code"} ELSE {})
                       \cup MapReasons(e.res.pages, rs, views)
+                      \cup OwnershipReasons(e.res)
   IN decR \cup iniR
 
 Init == l = 1 /\ devs = {} /\ bad = {}
